@@ -41,6 +41,14 @@ type Stall struct {
 	Site    string `json:"site"`
 	Nth     int    `json:"nth"`
 	DelayMs int    `json:"delay_ms"`
+	// Every > 0: from the Nth matching acquisition on, every Every-th one is delayed (a uniformly slow goroutine)
+	Every int `json:"every,omitempty"`
+}
+
+// StallWindow is one delay a stall actually imposed.
+type StallWindow struct {
+	Role     string
+	From, To time.Duration
 }
 
 // Sched arbitrates every mutex of the system under test in controlled mode.
@@ -59,6 +67,8 @@ type Sched struct {
 	Grants map[string]int
 	// StallsFired counts stalls that actually delayed a request.
 	StallsFired int
+	// Windows lists them (role of the delayed goroutine, simulated interval).
+	Windows []StallWindow
 	// OnGrant, if set, is called by the driver right after a grant (C13 refresh detection).
 	OnGrant func(r *LockReq)
 	// OnUnlock, if set, is called from the unlocking goroutine.
@@ -265,7 +275,8 @@ func (s *Sched) normalize(now time.Duration) {
 		for i, st := range s.stalls {
 			if strings.Contains(r.Role, st.Role) && strings.Contains(r.Site, st.Site) {
 				s.stallHit[i]++
-				if s.stallHit[i] == st.Nth {
+				if s.stallHit[i] == st.Nth || (st.Every > 0 && s.stallHit[i] > st.Nth && (s.stallHit[i]-st.Nth)%st.Every == 0) {
+					s.Windows = append(s.Windows, StallWindow{Role: r.Role, From: now, To: now + time.Duration(st.DelayMs)*time.Millisecond})
 					r.NotBefore = now + time.Duration(st.DelayMs)*time.Millisecond
 					s.StallsFired++
 					s.w.wakeAt(r.NotBefore)
